@@ -3,6 +3,7 @@
 #include <rapidcheck.h>
 #include "hist.hpp"
 #include <sys/stat.h>
+#include <functional>
 
 static std::vector<std::string> read_catalogue() { Quiet q; MASA::masa_printid<double>(); std::vector<std::string> out; std::stringstream ss(q.str()); std::string l; int bars = 0;
   while (std::getline(ss, l)) { if (l.find("*-----") != std::string::npos) { bars++; continue; } if (bars == 1 && !l.empty()) out.push_back(l); } return out; }
@@ -49,6 +50,28 @@ int main(int argc, char **argv) {
     std::vector<std::string> cat = read_catalogue(); cat.erase(std::remove_if(cat.begin(), cat.end(), [](const std::string &s) { return s == "masa_test_function" || s == "masa_uninit"; }), cat.end()); int n = 0;
     for (int i = 0;; i++) { std::ifstream f(std::string(dir) + "/case_" + std::to_string(i) + ".case"); if (!f) break; std::stringstream ss; ss << f.rdbuf(); std::vector<Op> ops; std::string pr; if (!history_from_text(ss.str(), ops, pr)) continue; History H; H.cfg.catalogue = cat; H.cfg.check_fresh = true; H.run(ops); n++; }
     { Quiet q; MASA::masa_verif_reset(); } fprintf(stderr, "replayed %d histories\n", n); return 0; }
+  if (const char *el = arg_value(argc, argv, "--exhaustive-len")) {   // C12: every sequence of length <= L over a 9-letter alphabet on 2 handles x 2 solution types, full audit after every step
+    int L = atoi(el), shard = atoi(arg_value(argc, argv, "--shard", "0")), nshards = atoi(arg_value(argc, argv, "--nshards", "1")); std::string faildir = arg_value(argc, argv, "--faildir", "."); stats().path = arg_value(argc, argv, "--out", ""); mkdir(faildir.c_str(), 0755); Stats &st = stats();
+    std::vector<std::string> cat = read_catalogue(); cat.erase(std::remove_if(cat.begin(), cat.end(), [](const std::string &s) { return s == "masa_test_function" || s == "masa_uninit"; }), cat.end());
+    auto idx_of = [&](const std::string &n) { return (int)(std::find(cat.begin(), cat.end(), n) - cat.begin()); }; int X = idx_of("euler_1d"), Y = idx_of("heateq_1d_steady_const");
+    const char *letters[9] = {"init(a,euler_1d)", "init(b,euler_1d)", "init(a,heateq_1d_steady_const)", "select(a)", "select(b)", "set(first parameter, 2.5)", "set(second parameter, -7)", "init_param", "init<long double>(a,euler_1d)"};
+    // letter -> operation record against the current model state; returns false when the letter is not applicable (select of an absent handle)
+    auto make = [&](int letter, History &H, Op &o) -> bool { o = Op(); Registry &R = H.reg[0]; auto pos = [&](const std::string &h) { int k = 0; for (auto &kv : R.handles) { if (kv.first == h) return k; k++; } return -1; };
+      switch (letter) { case 0: o.code = OP_INIT; o.h = 0; o.s = X; return true; case 1: o.code = OP_INIT; o.h = 1; o.s = X; return true; case 2: o.code = OP_INIT; o.h = 0; o.s = Y; return true;
+        case 3: case 4: { int k = pos(letter == 3 ? "a" : "b"); if (k < 0) return false; o.code = OP_SELECT; o.h = k; return true; }
+        case 5: if (!R.has_selected) return false; o.code = OP_SET; o.p = 0; o.n = 1; o.v[0] = 9 + 11 * 256; return true;       // decode_value kind 9 -> a value in (0.5, 3)
+        case 6: if (!R.has_selected) return false; o.code = OP_SET; o.p = 1; o.n = 1; o.v[0] = 0 + 11 * 3 * 256; return true;   // kind 0 -> small integer
+        case 7: if (!R.has_selected) return false; o.code = OP_INITP; return true;
+        default: o.code = OP_INIT; o.prec = 1; o.h = 0; o.s = X; return true; } };
+    long long total = 0, mine = 0, violations = 0; std::vector<int> seq;
+    std::function<void(int)> rec = [&](int depth) { if (!seq.empty()) { long long id = total++; if (id % nshards == shard) { mine++;
+          History H; H.cfg.catalogue = cat; H.cfg.check_fresh = false; H.cfg.audit_every_step = true; H.reset_library(); std::vector<Op> ops; bool applicable = true;
+          for (int l : seq) { Op o; if (!make(l, H, o)) { applicable = false; break; } ops.push_back(o); H.run_step(o); if (H.failed()) break; }
+          if (applicable) { st.count("cases"); st.count("evaluations", (long long)ops.size()); st.count("class:exhaustive_sequence_len=" + std::to_string(seq.size())); Hasher h; for (int l : seq) h.i64(l); if (seq.size() >= 3) { st.distinct.insert(h.h); st.count("class:H:nontrivial"); }
+            if (st.samples.size() < 4 && mine % 4001 == 1) { std::string j = "{\"exhaustive_sequence\":["; for (size_t i = 0; i < seq.size(); i++) j += std::string(i ? "," : "") + "\"" + letters[seq[i]] + "\""; st.sample(j + "]}"); }
+            for (auto &fl : H.fails) if (fl.prop == "C12" && violations == 0) { violations++; std::string note = "exhaustive sequence, step " + std::to_string(fl.step) + ": " + fl.msg; write_file(faildir + "/fail_C12.case", history_to_text(ops, "C12", note)); st.findings.push_back("{\"violation\":true,\"sub\":\"" + jesc(note.substr(0, 400)) + "\",\"file\":\"" + jesc(faildir + "/fail_C12.case") + "\"}"); } } } }
+      if (depth == L) return; for (int l = 0; l < 9; l++) { seq.push_back(l); rec(depth + 1); seq.pop_back(); } };
+    rec(0); st.count("exhaustive_sequences_total", total); st.flush(); return violations ? 1 : 0; }
   int dump_n = atoi(arg_value(argc, argv, "--dump", "0")); std::string dump_dir = arg_value(argc, argv, "--dump-dir", ".");
   std::string prop = arg_value(argc, argv, "--prop", "C11"); uint64_t seed = strtoull(arg_value(argc, argv, "--seed", "1"), 0, 10); int cases = atoi(arg_value(argc, argv, "--cases", "100")); int maxsize = atoi(arg_value(argc, argv, "--maxsize", "100"));
   std::string faildir = arg_value(argc, argv, "--faildir", "."); stats().path = arg_value(argc, argv, "--out", ""); mkdir(faildir.c_str(), 0755); Stats &st = stats();
